@@ -98,3 +98,123 @@ impl Family for Snippet {
         Outcome { fail, nontrivial, key, rendered }
     }
 }
+
+// C09 (c'): a diagnostic and its notes, with spans in two files (cases of MC_Notes):
+// {"files": [[[cls..]..], [[cls..]..]], "diag": {f, r, a, b}, "notes": [{f, r, a, b} | f = 0: no span],
+//  "expect": [{"file", "row", "col", "snippet": {"gutter", "rows": [{"n", "pad", "len"}]}}]}
+#[derive(Default)]
+pub struct SnippetNotes;
+
+struct Block {
+    header: String,
+    gutter: usize,
+    rows: Vec<Value>,
+    shown: Vec<String>,
+}
+
+/// splits human-readable output into the snippets it contains (a snippet starts at a ' --> ' line)
+fn blocks(shown: &str) -> Vec<Block> {
+    let lines: Vec<&str> = shown.lines().collect();
+    let mut out = Vec::new();
+    let mut i = 0;
+    while i < lines.len() {
+        let Some(h) = lines[i].strip_prefix(" --> ") else {
+            i += 1;
+            continue;
+        };
+        let mut b = Block { header: h.to_owned(), gutter: 0, rows: vec![], shown: vec![] };
+        i += 1;
+        // gutter line, then (numbered line, underline) pairs, then a closing gutter line
+        let body: Vec<&str> = lines[i..].iter().take_while(|l| l.contains('|') && !l.starts_with(" --> ")).copied().collect();
+        i += body.len();
+        let mut j = 1;
+        while j + 1 < body.len() {
+            let (numbered, under) = (body[j], body[j + 1]);
+            let bar = numbered.find('|').unwrap_or(0);
+            b.gutter = bar;
+            let n: u64 = numbered[..bar].trim().parse().unwrap_or(0);
+            b.shown.push(numbered.get(bar + 2..).unwrap_or("").to_owned());
+            let ubar = under.find('|').unwrap_or(0);
+            let marks = &under[ubar + 1..];
+            let pad = marks.chars().take_while(|c| *c == ' ').count();
+            let rest: String = marks.chars().skip(pad).collect();
+            let len = if rest.starts_with("/\\") { 0 } else { rest.chars().take_while(|c| *c == '-').count() };
+            let clean = rest == "/\\" || rest.chars().all(|c| c == '-');
+            b.rows.push(json!({"n": n, "pad": pad, "len": len, "clean": clean, "ubar": ubar == bar}));
+            j += 2;
+        }
+        out.push(b);
+    }
+    out
+}
+
+impl Family for SnippetNotes {
+    fn run(&mut self, case: &Value) -> Outcome {
+        // class "a" is another letter in each file, so a line of the wrong file can never pass for the right one
+        let ch = |c: &str, f: usize| if c == "a" { ['a', 'b'][f] } else { class_char(c) };
+        let texts: Vec<Vec<String>> = case["files"]
+            .as_array()
+            .cloned()
+            .unwrap_or_default()
+            .iter()
+            .enumerate()
+            .map(|(f, ls)| ls.as_array().cloned().unwrap_or_default().iter().map(|l| strs(l).iter().map(|c| ch(c, f)).collect()).collect())
+            .collect();
+        let names = ["one.slice", "dir/two.slice"];
+        let files: Vec<SliceFile> = texts.iter().enumerate().map(|(f, ls)| SliceFile::new(names[f].into(), ls.join("\n") + "\n", true)).collect();
+        let span_of = |p: &Value| -> Option<Span> {
+            let f = p["f"].as_u64().unwrap_or(0) as usize;
+            if f == 0 {
+                return None;
+            }
+            let r = p["r"].as_u64().unwrap_or(1) as usize;
+            Some(Span::new(
+                Location { row: r, col: p["a"].as_u64().unwrap_or(1) as usize },
+                Location { row: r, col: p["b"].as_u64().unwrap_or(1) as usize },
+                names[f - 1],
+            ))
+        };
+        let options = SliceOptions { disable_color: true, ..Default::default() };
+        let mut out: Vec<u8> = Vec::new();
+        {
+            let mut emitter = DiagnosticEmitter::new(&mut out, &options, &files);
+            let mut d = Diagnostic::new(Error::Syntax { message: "m".into() }).set_span(&span_of(&case["diag"]).unwrap());
+            for (i, n) in case["notes"].as_array().cloned().unwrap_or_default().iter().enumerate() {
+                d = d.add_note(format!("note {i}"), span_of(n).as_ref());
+            }
+            let _ = emitter.emit_diagnostics(vec![d]);
+        }
+        let shown = String::from_utf8_lossy(&out).to_string();
+        let rendered = json!({"files": texts, "diag": case["diag"], "notes": case["notes"]});
+        let key = hash_str(&rendered.to_string());
+        let got = blocks(&shown);
+        let want = case["expect"].as_array().cloned().unwrap_or_default();
+        let fail = (|| {
+            if got.len() != want.len() {
+                return Some(mismatch("number of snippets (the diagnostic's, then one per note that has a span)", json!(want.len()), json!({"snippets": got.len(), "output": shown})));
+            }
+            for (k, (g, w)) in got.iter().zip(want.iter()).enumerate() {
+                let f = w["file"].as_u64().unwrap_or(1) as usize - 1;
+                let header = format!("{}:{}:{}", names[f], w["row"], w["col"]);
+                if g.header != header {
+                    return Some(mismatch(&format!("location line of snippet {k}"), json!(header), json!({"header": g.header, "output": shown})));
+                }
+                if Some(g.gutter as u64) != w["snippet"]["gutter"].as_u64() {
+                    return Some(mismatch("gutter width (digits of the last row + 1)", w["snippet"]["gutter"].clone(), json!({"gutter": g.gutter, "output": shown})));
+                }
+                let rows: Vec<Value> = w["snippet"]["rows"].as_array().cloned().unwrap_or_default().iter().map(|r| json!({"n": r["n"], "pad": r["pad"], "len": r["len"], "clean": true, "ubar": true})).collect();
+                if g.rows != rows {
+                    return Some(mismatch(&format!("line numbers, padding and underline of snippet {k}"), json!(rows), json!({"rows": g.rows, "output": shown})));
+                }
+                // the text shown is the line of the file the span names
+                let line = texts[f][w["row"].as_u64().unwrap_or(1) as usize - 1].replace('\t', "    ");
+                if g.shown != vec![line.clone()] {
+                    return Some(mismatch(&format!("text shown by snippet {k} (the line of the file its span names)"), json!([line]), json!({"shown": g.shown, "output": shown})));
+                }
+            }
+            None
+        })();
+        let nontrivial = case["notes"].as_array().map(|n| n.iter().any(|p| p["f"] != 0 && p["f"] != case["diag"]["f"])).unwrap_or(false);
+        Outcome { fail, nontrivial, key, rendered }
+    }
+}
